@@ -214,26 +214,36 @@ def make_group(rng, scn):
     lo = rng.randrange(0, ntask - size + 1)
     members = list(range(lo, lo + size))
     mset = set(members)
+    # the sub-graph sits in the hard graph, or (less often) in the soft one:
+    # its inner edges are then soft and must stay soft
+    key = 'soft' if rng.random() < 0.3 else 'hard'
+    if key == 'soft':
+        # give the members something to be grouped by
+        for pos, i in enumerate(members[1:], 1):
+            if rng.random() < 0.7 and members[pos - 1] not in tasks[i]['hard']:
+                tasks[i]['soft'] = sorted(set(tasks[i]['soft']) |
+                                          {members[pos - 1]})
     for i, tsk in enumerate(tasks):
         if i in mset:
-            tsk['hard'] = [j for j in tsk['hard'] if j in mset]
+            tsk[key] = [j for j in tsk[key] if j in mset]
         else:
-            tsk['hard'] = [j for j in tsk['hard'] if j not in mset]
+            tsk[key] = [j for j in tsk[key] if j not in mset]
     gdeps = [j for j in range(lo) if rng.random() < 0.6]
     gdependees = [k for k in range(lo + size, ntask) if rng.random() < 0.6]
-    inner = {i: list(tasks[i]['hard']) for i in members}
+    inner = {i: list(tasks[i][key]) for i in members}
     terminals = [i for i in members if not inner[i]]
     initials = [i for i in members
                 if not any(i in inner[m] for m in members)]
     for i in terminals:
-        tasks[i]['hard'] = sorted(set(tasks[i]['hard']) | set(gdeps))
+        tasks[i][key] = sorted(set(tasks[i][key]) | set(gdeps))
     for k in gdependees:
-        tasks[k]['hard'] = sorted(set(tasks[k]['hard']) | set(initials))
-    for tsk in tasks:
-        tsk['soft'] = [j for j in tsk['soft'] if j not in tsk['hard']]
+        tasks[k][key] = sorted(set(tasks[k][key]) | set(initials))
+    if key == 'hard':
+        for tsk in tasks:
+            tsk['soft'] = [j for j in tsk['soft'] if j not in tsk['hard']]
     scn['group'] = {'members': members, 'inner': {str(i): inner[i]
                                                   for i in members},
-                    'deps': gdeps, 'dependees': gdependees}
+                    'deps': gdeps, 'dependees': gdependees, 'in': key}
 
 
 def node_order(scn):
@@ -578,10 +588,12 @@ def build_graphs(scn, mods, objs):
     members = set(group['members']) if group else set()
     rank = node_order(scn)
     by_rank = sorted(range(len(specs)), key=lambda i: rank[i])
+    gkey = group.get('in', 'hard') if group else 'hard'
+    graphs = {'hard': hard, 'soft': soft}
     for i in by_rank:
-        if i not in members:
-            hard.add_node(objs[i])
-        soft.add_node(objs[i])
+        for key, graph in graphs.items():
+            if i not in members or key != gkey:
+                graph.add_node(objs[i])
     if group:
         sub = dg()
         for i in group['members']:
@@ -589,11 +601,11 @@ def build_graphs(scn, mods, objs):
         for i in group['members']:
             for j in group['inner'][str(i)]:
                 sub.add_dependency(objs[i], on=objs[j])
-        hard.add_node(sub)
+        graphs[gkey].add_node(sub)
         for j in group['deps']:
-            hard.add_dependency(sub, on=objs[j])
+            graphs[gkey].add_dependency(sub, on=objs[j])
         for k in group['dependees']:
-            hard.add_dependency(objs[k], on=sub)
+            graphs[gkey].add_dependency(objs[k], on=sub)
     implied = set()
     if group and not group['members']:
         implied = {(k, j) for k in group['dependees'] for j in group['deps']}
@@ -603,12 +615,12 @@ def build_graphs(scn, mods, objs):
                     scn['group_direct']}
     for i in by_rank:
         spec = specs[i]
-        if i not in members:
-            for j in spec['hard']:
-                if j not in members and (i, j) not in implied:
-                    hard.add_dependency(objs[i], on=objs[j])
-        for j in spec['soft']:
-            soft.add_dependency(objs[i], on=objs[j])
+        for key, graph in graphs.items():
+            for j in spec[key]:
+                if key == gkey and (i in members or j in members
+                                    or (i, j) in implied):
+                    continue    # (said by the sub-graph node)
+                graph.add_dependency(objs[i], on=objs[j])
     return hard, soft
 
 
@@ -867,8 +879,27 @@ def oracle_c02(scn, res):
         return viol
     model = model_statuses(scn)
     counts = {}
+    ncalls = scn.get('calls', 1)
     for rec in res.execs:
         counts[rec['task']] = counts.get(rec['task'], 0) + 1
+    if ncalls > 1:
+        # every call starts from an empty environment: each one executes
+        # every task that is not skipped, once
+        percall = {}
+        for rec in res.execs:
+            key = (rec['task'], rec['run'])
+            percall[key] = percall.get(key, 0) + 1
+        for i, spec in enumerate(specs):
+            want_n = 0 if model[i] == 'SKIPPED' else 1
+            for call in range(ncalls):
+                if percall.get((i, call), 0) != want_n:
+                    viol.append(('exec-count',
+                                 'exec-count:%d-for-%d-in-call-%d' % (
+                                     percall.get((i, call), 0), want_n, call),
+                                 {'task': spec['name'], 'call': call}))
+                    return viol
+        counts = {i: percall.get((i, ncalls - 1), 0)
+                  for i in range(len(specs))}
     for i, spec in enumerate(specs):
         got = res.statuses.get(i)
         want = model[i]
